@@ -790,3 +790,121 @@ package geom
 //@   modifies nothing
 //@   loop 1 `for _, pp := range l`
 //@     invariant [none_out] 0 <= #1 && #1 <= len(l) && (typeof(p) == Polygon ==> !anyOutP(l, p.(Polygon), #1)) && (typeof(p) == MultiPolygon ==> !anyOutM(l, p.(MultiPolygon), #1))
+
+//@ -- ------------------------------------------------------------ C03: measures
+//@ spec shTerm(a Point, b Point) float64 = (a.X + b.X) * (b.Y - a.Y)
+//@ spec shTo(r []Point, k int) float64 decreases k = k <= 0 ? 0 : shTo(r, k-1) + shTerm(r[k-1], r[k])
+//@ spec shoelace2(r []Point) float64 = shTerm(r[len(r)-1], r[0]) + shTo(r, len(r)-1)
+//@ spec lenTo(l []Point, k int) float64 decreases k = k <= 0 ? 0 : lenTo(l, k-1) + normP(subP(l[k], l[k-1]))
+//@ spec distTo(p Point, l []Point, k int) float64 decreases k = k <= 0 ? posInf() : goMin(distTo(p, l, k-1), distPS(p, l[k-1], l[k]))
+
+//@ func signedarea
+//@   prop C03
+//@   mode real
+//@   ensures [short] len(polygon) < 2 ==> result == 0
+//@   ensures [shoelace] len(polygon) >= 2 ==> result == shoelace2(polygon) / 2
+//@   modifies nothing
+//@   loop 1 `for i := 0; i < highI; i++`
+//@     invariant [sum] 0 <= i && i <= highI && highI == len(polygon) - 1 && A == shTerm(polygon[highI], polygon[0]) + shTo(polygon, i)
+//@     decreases highI - i
+
+//@ func (l LineString) Length
+//@   prop C03
+//@   mode real
+//@   ensures [empty] len(l) == 0 ==> result == 0
+//@   ensures [sum] len(l) >= 1 ==> result == lenTo(l, len(l) - 1)
+//@   modifies nothing
+//@   loop 1 `for i := 0; i < len(l)-1; i++`
+//@     invariant [sum] 0 <= i && (len(l) >= 1 ? i <= len(l) - 1 : i == 0) && length == lenTo(l, i)
+//@     decreases len(l) - i
+
+//@ func (b *Bounds) Area
+//@   prop C03
+//@   mode real
+//@   requires [nonnil] b != nil
+//@   ensures [rect] result == (b.Max.X - b.Min.X) * (b.Max.Y - b.Min.Y)
+//@   modifies nothing
+
+//@ func (b *Bounds) Centroid
+//@   prop C03
+//@   mode real
+//@   requires [nonnil] b != nil
+//@   ensures [mid] result.X == (b.Min.X + b.Max.X) / 2 && result.Y == (b.Min.Y + b.Max.Y) / 2
+//@   ensures [inside] b.Min.X <= b.Max.X && b.Min.Y <= b.Max.Y ==> b.Min.X <= result.X && result.X <= b.Max.X && b.Min.Y <= result.Y && result.Y <= b.Max.Y
+//@   modifies nothing
+
+//@ func (l LineString) Distance
+//@   prop C03
+//@   mode real
+//@   ensures [min] len(l) >= 1 ==> result == distTo(p, l, len(l) - 1)
+//@   ensures [empty] len(l) == 0 ==> result == posInf()
+//@   modifies nothing
+//@   loop 1 `for i := 0; i < len(l)-1; i++`
+//@     invariant [min] 0 <= i && (len(l) >= 1 ? i <= len(l) - 1 : i == 0) && d == distTo(p, l, i)
+//@     decreases len(l) - i
+
+//@ func (ml MultiLineString) Length
+//@   prop C03
+//@   mode real
+//@   ensures [sum] result == mlLenTo(ml, len(ml))
+//@   modifies nothing
+//@   loop 1 `for _, l := range ml`
+//@     invariant [sum] 0 <= #1 && #1 <= len(ml) && length == mlLenTo(ml, #1)
+//@ spec mlLenTo(ml []LineString, k int) float64 decreases k = k <= 0 ? 0 : mlLenTo(ml, k-1) + (len(ml[k-1]) >= 1 ? lenTo(ml[k-1], len(ml[k-1]) - 1) : 0)
+
+//@ func (p Point) Buffer
+//@   prop C03
+//@   mode real
+//@   panics [bad_args] segments < 3 || radius < 0
+//@   ensures [shape] len(result) == 1 && len(result[0]) == segments && fresh(result) && fresh(result[0])
+//@   ensures [vertices] forall k int :: 0 <= k && k < segments ==> result[0][k].X == p.X + radius * cos(real(k) * (pi2() / real(segments))) && result[0][k].Y == p.Y + radius * sin(real(k) * (pi2() / real(segments)))
+//@   modifies nothing
+//@   loop 1 `for i := 0; i < segments; i++`
+//@     invariant [filled] 0 <= i && i <= segments && fresh(o) && len(o) == 1 && len(o[0]) == segments && fresh(o[0]) && (forall k int :: 0 <= k && k < i ==> o[0][k].X == p.X + radius * cos(real(k) * (pi2() / real(segments))) && o[0][k].Y == p.Y + radius * sin(real(k) * (pi2() / real(segments))))
+//@     decreases segments - i
+//@ spec pi2() float64 = math.Pi * 2
+
+//@ spec lerpP(s Point, e Point, t float64) Point = Point(s.X + t * (e.X - s.X), s.Y + t * (e.Y - s.Y))
+//@ axiom distPS_is_lower_bound(p Point, s Point, e Point, t float64)
+//@   prop C03
+//@   trusted textbook: the three-case closed form (clamp the projection parameter to [0,1]) is the minimum distance; NRA goal not discharged by the installed solvers within the budget
+//@   mode real
+//@   requires 0 <= t && t <= 1
+//@   ensures distPS(p, s, e) * distPS(p, s, e) <= dotP(subP(p, lerpP(s, e, t)), subP(p, lerpP(s, e, t)))
+//@ axiom distPS_is_attained(p Point, s Point, e Point)
+//@   prop C03
+//@   trusted textbook: attained at t = 0, 1 or c1/c2
+//@   mode real
+//@   ensures exists t float64 :: 0 <= t && t <= 1 && distPS(p, s, e) * distPS(p, s, e) == dotP(subP(p, lerpP(s, e, t)), subP(p, lerpP(s, e, t)))
+//@ lemma distPS_nonneg(p Point, s Point, e Point)
+//@   prop C03
+//@   mode real
+//@   ensures distPS(p, s, e) >= 0
+
+//@ spec mxTerm(a Point, b Point) float64 = (a.X + b.X) * (a.X*b.Y - b.X*a.Y)
+//@ spec myTerm(a Point, b Point) float64 = (a.Y + b.Y) * (a.X*b.Y - b.X*a.Y)
+//@ spec mxTo(r []Point, k int) float64 decreases k = k <= 0 ? 0 : mxTo(r, k-1) + mxTerm(r[k-1], r[k])
+//@ spec myTo(r []Point, k int) float64 decreases k = k <= 0 ? 0 : myTo(r, k-1) + myTerm(r[k-1], r[k])
+//@ spec sa(r []Point) float64 = len(r) < 2 ? 0 : shoelace2(r) / 2
+//@ pred closedOrEmpty(r []Point) = len(r) == 0 || (r[len(r)-1].X == r[0].X && r[len(r)-1].Y == r[0].Y)
+//@ pred allClosed(p []Path) = forall k int :: 0 <= k && k < len(p) ==> closedOrEmpty(p[k])
+//@ spec saTo(p []Path, k int) float64 decreases k = k <= 0 ? 0 : saTo(p, k-1) + (len(p[k-1]) == 0 ? 0 : sa(p[k-1]))
+//@ spec cxaTo(p []Path, k int) float64 decreases k = k <= 0 ? 0 : cxaTo(p, k-1) + (len(p[k-1]) == 0 ? 0 : (mxTo(p[k-1], len(p[k-1]) - 1) / (6 * sa(p[k-1]))) * sa(p[k-1]))
+//@ spec cyaTo(p []Path, k int) float64 decreases k = k <= 0 ? 0 : cyaTo(p, k-1) + (len(p[k-1]) == 0 ? 0 : (myTo(p[k-1], len(p[k-1]) - 1) / (6 * sa(p[k-1]))) * sa(p[k-1]))
+
+//@ func (p Polygon) Centroid
+//@   prop C03
+//@   mode real
+//@   ensures [closed_rings] allClosed(p) ==> result.X == cxaTo(p, len(p)) / saTo(p, len(p)) && result.Y == cyaTo(p, len(p)) / saTo(p, len(p))
+//@   modifies nothing
+//@   loop 1 `for _, r := range p`
+//@     invariant [count] 0 <= #1 && #1 <= len(p)
+//@     invariant [sumA] A == saTo(p, #1)
+//@     invariant [sumX] allClosed(p) ==> xA == cxaTo(p, #1)
+//@     invariant [sumY] allClosed(p) ==> yA == cyaTo(p, #1)
+//@   loop 2 `for i := 0; i < len(r)-1; i++`
+//@     invariant [moments] 0 <= i && len(r) >= 1 && i <= len(r) - 1 && cx == mxTo(r, i) && cy == myTo(r, i)
+//@     decreases len(r) - i
+//@   assert [ring_area] `cx /= 6 * a` a == sa(p[#1]) && len(p[#1]) >= 1
+//@   assert [ring_same] `cx /= 6 * a` allClosed(p) ==> r == p[#1]
+//@   assert [ring_moment] `cx /= 6 * a` allClosed(p) ==> cx == mxTo(p[#1], len(p[#1]) - 1) && cy == myTo(p[#1], len(p[#1]) - 1)
